@@ -115,8 +115,11 @@ def strategy(tier):
 
 def warmup():
     """Build the real hierarchies (and compile / load numba kernels) before the clock starts."""
-    for k in range(len(HIER)):
-        structure(k)
+    try:
+        for k in range(len(HIER)):
+            structure(k)
+    except Exception:  # noqa: BLE001 - failures are reported by the search itself
+        pass
 
 
 # ------------------------------------------------------------------------- pure model
